@@ -7,9 +7,10 @@ Region PollLock (Appendix B): `_poll_descriptors` is a list of (future, descript
 import z3
 
 from pyvc.vals import Val, NONE, I, B, R, Z, ref, fresh, cls_of, ArgPack, PENDING, RUNNING, CANCELLED, CANCELLED_AND_NOTIFIED
-from pyvc.verify import Unit, sym_inst, sym_val, user_calls
+from pyvc.verify import Unit, sym_inst, sym_val, user_calls, new_inst
 from pyvc.symexec import Raise, LoopSpec
-from .base import make_cfg, FIELD_TYPES, INST, OPT, RecordCall
+from pyvc.b_ctrl import role_name
+from .base import make_cfg, FIELD_TYPES, INST, OPT, RecordCall, decided
 from .c_throttle import global_handler, TrackFuture
 from .c_future import fresh_bool
 
@@ -283,8 +284,7 @@ def _cfg_fut():
 
 def _setup_pf_init(engine, st):
     # the object under construction is fresh: private to the constructing thread until the constructor publishes it
-    oid = st.alloc("PollFuture")
-    st.assume(cls_of(z3.IntVal(oid)) == engine.tag("PollFuture"))
+    oid = engine.concrete_id(new_inst(engine, st, "PollFuture").t)        # fresh, private, every field UNSET
     me = Z(ref(oid), INST("PollFuture"))
     d = sym_val(engine, st, "future", "delegate")
     ex = sym_inst(engine, st, "PollExecutor", "executor")
@@ -393,7 +393,7 @@ def _cfg_loop():
         if waits:
             w = waits[0][1]
             out.append(("the thread holds no lock and no strong reference to its executor while it waits",
-                        z3.BoolVal(not w.held and st.lookup_env(fr.eid, "executor") is None)))
+                        z3.BoolVal(not w.held and st.lookup_env(fr.eid, role_name(fr.func.node, "$call:executor_ref", "executor")) is None)))
             tmo = w.args[0]
             tv = engine.to_val(st, tmo)
             out.append(("the wait is bounded by the delay the poll function asked for, or else the default interval (never unbounded)",
@@ -417,7 +417,7 @@ def _setup_loop(engine, st):
 def _post_loop(engine, st, ctx, out):
     if isinstance(out, Raise):
         return [("the poll thread never dies from an exception", "EX", z3.BoolVal(False), ["C18", "C08"])]
-    gone = any(a == "not executor" and b for a, b in st.decisions)
+    gone = decided(engine, st, "poll._poll_loop", "not {$call:executor_ref|executor}", True)
     return [("the loop ends only when the executor is gone, shut down, or the interpreter exits", "PC", z3.Or(z3.BoolVal(gone), engine.cfg.flags.now(st)), ["C11", "C12"])]
 
 
